@@ -9,3 +9,15 @@ mod utils;
 pub mod instructions;
 
 pub type Result<T> = core::result::Result<T, errors::UnifiedError>;
+
+/// Verification hook (cargo feature `verif`, off by default): add-only re-export of the
+/// otherwise private Pinocchio modules so an external harness can call the ported manager
+/// functions and the memory-mapped account views directly.
+#[cfg(feature = "verif")]
+pub mod verif_export {
+    pub use super::constants::*;
+    pub use super::errors::*;
+    pub use super::ported::*;
+    pub use super::state::*;
+    pub use super::utils::*;
+}
